@@ -1464,7 +1464,8 @@ SoPlexBase<R>& SoPlexBase<R>::operator=(const SoPlexBase<R>& rhs)
       _ratiotesterHarris = rhs._ratiotesterHarris;
       _ratiotesterFast = rhs._ratiotesterFast;
       _ratiotesterBoundFlipping = rhs._ratiotesterBoundFlipping;
-      _tolerances = rhs._tolerances;
+      // the copy needs its own tolerances object, otherwise changing a tolerance of one solver changes the other
+      _tolerances = std::make_shared<Tolerances>(*rhs._tolerances);
 
       // copy solution data
       _status = rhs._status;
